@@ -1,5 +1,21 @@
-"""Seed-font generation entry point used by `verif setup` (fills build/gen)."""
-import os
+"""Seed-font generation used by `verif setup` and (lazily) by every check: fills build/gen."""
+import os, sys, hashlib
+ROOT = os.path.dirname(os.path.dirname(os.path.abspath(__file__)))
+sys.path.insert(0, os.path.join(ROOT, 'gen'))
+
 
 def generate_all(outdir):
+    import seeds
     os.makedirs(outdir, exist_ok=True)
+    stamp = os.path.join(outdir, '.stamp')
+    h = hashlib.sha1()
+    for f in sorted(os.listdir(os.path.join(ROOT, 'gen'))):
+        if f.endswith('.py'): h.update(open(os.path.join(ROOT, 'gen', f), 'rb').read())
+    if os.path.exists(stamp) and open(stamp).read() == h.hexdigest():
+        return
+    seeds.write_all(outdir)
+    open(stamp, 'w').write(h.hexdigest())
+
+
+if __name__ == '__main__':
+    generate_all(sys.argv[1] if len(sys.argv) > 1 else os.path.join(ROOT, 'build', 'gen'))
